@@ -83,9 +83,9 @@ def xargs_runs(ctx):
     try:
         cases = [(8 << 20, 400000, [1], 0, []), (256 * 1024, 30000, [1, 2], 0, []), (1 << 20, 5000, [99, 100, 300], 50, [])]
         # an environment that nearly fills the kernel's budget: the room left for arguments is a few hundred bytes to a few KiB
-        cases.append((512 * 1024, 300, [30], rng.choice([3460, 3500, 3540, 3560]), []))
+        cases.append((512 * 1024, 300, [30], rng.choice([3340, 3380, 3420, 3440]), []))
         if ctx.thorough:
-            cases += [(64 << 20, 600000, [1], 0, []), (512 * 1024, 500, [10, 40], 3550, []), (512 * 1024, 50, [200], 3480, ["-n", "3"]), (8 << 20, 100000, [1, 9, 40], 1000, []), (256 * 1024, 20000, [1], 0, ["-n", "5000"]),
+            cases += [(64 << 20, 600000, [1], 0, []), (512 * 1024, 500, [10, 40], 3430, []), (512 * 1024, 50, [200], 3360, ["-n", "3"]), (8 << 20, 100000, [1, 9, 40], 1000, []), (256 * 1024, 20000, [1], 0, ["-n", "5000"]),
                       (8 << 20, 3000, [4000, 100000], 0, []), (1 << 20, 50000, [3], 10, ["-s", "100000"])]
         else:
             cases.append((rng.choice([256 * 1024, 1 << 20]), rng.choice([1, 2, 1000, 20000]), [1, 50], rng.choice([0, 100]), rng.choice([[], ["-n", "700"]])))
@@ -130,6 +130,22 @@ def xargs_runs(ctx):
                                "env_vars": envn, "exit": p.returncode, "delivered": delivered, "invocation_sizes": sizes[:50],
                                "model_exit": m[0], "model_invocation_sizes": msizes[:50], "stderr": p.stderr.decode("utf-8", "replace")[:300],
                                "reproduce": "ulimit -s %d; yes a | head -%d | xargs %s true" % (rl // 1024, count, " ".join(opts))})
+        # the file name the kernel copies when it executes the command counts against the same limit: a command reached through a long
+        # path (up to PATH_MAX) with batches that fill the budget
+        deep = td
+        for _ in range(15):
+            deep = os.path.join(deep, "p" * 240)
+        os.makedirs(deep)
+        cmd = os.path.join(deep, "t")
+        shutil_copy = __import__("shutil").copy
+        shutil_copy("/bin/true", cmd)
+        for count in (400000, 3):
+            p = subprocess.run([fw.XARGS, cmd], input=b"a\n" * count, env=xc.ENV, stdout=subprocess.DEVNULL, stderr=subprocess.PIPE, timeout=900)
+            ctx.count(("long-command-path", len(cmd), count), True, "long-command-path")
+            if p.returncode != 0:
+                ctx.violation("xargs CMD with a %d-byte command path and %d one-byte arguments: exit %d (%s)" % (len(cmd), count, p.returncode, p.stderr.decode("utf-8", "replace")[:120]),
+                              {"property": "C06", "kind": "long-command-path", "path_length": len(cmd), "arguments": count, "exit": p.returncode,
+                               "stderr": p.stderr.decode("utf-8", "replace")[:300]})
         # single arguments around the per-argument limit
         for L, exp_rc, exp_runs in ((131071, 0, 1), (131072, 1, 0), (200000, 1, 0), (131070, 0, 1)):
             rec = os.path.join(td, "rec1")
@@ -149,9 +165,9 @@ def xargs_runs(ctx):
 
 
 def reference_sizes(args, n, s, env, amax, cmd):
-    """greedy batching under within_limits (system clause: 8 bytes per pointer, ARG_MAX - 2048 - env - 16)"""
+    """greedy batching under within_limits (system clause: 8 bytes per pointer, ARG_MAX - 2048 - 4096 - env - 16)"""
     env_size = sum(len(k.encode()) + 1 + len(v.encode()) + 1 + 8 for k, v in env.items())
-    sysb = max(0, amax - (2048 + env_size + 16))
+    sysb = max(0, amax - (2048 + 4096 + env_size + 16))
     base8 = sum(len(c) + 1 + 8 for c in cmd)
     base0 = sum(len(c) + 1 for c in cmd)
     sizes, cur, c8, c0 = [], 0, base8, base0
